@@ -1,6 +1,6 @@
 (* Model/DocSet.v — analytics/document_set.go *)
 From Coq Require Import List String Ascii ZArith Lia Bool Arith.
-From YT Require Import Base.Str Base.KV Model.Doc Model.Dom Model.Path Model.Builder Model.Equals Model.Merge Model.Overlay.
+From YT Require Import Base.Str Base.KV Model.Doc Model.Dom Model.Path Model.Builder Model.Equals Model.Merge Model.Overlay Model.Analytics.
 Import ListNotations.
 Local Open Scope list_scope.
 
@@ -94,6 +94,9 @@ Definition ds_add_items (manifest : string) (items : list (string * option node)
    its name a dotted path (k8s.DecodeEmbeddedProps: AddValueAt(item, text) in List() order) *)
 Definition props_doc (items : list (string * string)) : node :=
   Con (fold_left (fun kvs it => add_value_at (fst it) (Leaf (SStr (snd it))) kvs) items []).
+
+(* k8s.EncodeEmbeddedProps: one text item per flattened leaf of the document: its path, and fmt "%v" of its value *)
+Definition enc_props (d : node) : list (string * string) := map (fun e => (fst e, fmt_scalar (snd e))) (flatten d).
 
 Inductive dsop :=
 | DAdd (name : string) (doc : node) (tags : list string) (pol : policy)
